@@ -1116,6 +1116,10 @@ class ChannelFactory:
             self._callbacks[id] = (item[0], item[1], strconfig)
         if channel is None and item is None:
             self._strconfigs[id] = strconfig
+            # settings for channels that never arrive (configured after
+            # they were closed and forgotten here) must not pile up
+            while len(self._strconfigs) > 100:
+                del self._strconfigs[next(iter(self._strconfigs))]
 
     def _local_receive(self, id: int, data) -> None:
         # executes in receiver thread
